@@ -1,6 +1,6 @@
 (* Verdict functions for the end-to-end converter run (C01: sample conservation; C17: names and lifetimes).
    A case = the record history (in the order the importer processes it) and what out.json shows per thread entry. *)
-From SV Require Import Model.Converter.
+From SV Require Import Model.Converter Model.ConverterReuse.
 Open Scope N_scope.
 
 (* observed thread entry: (pid, sfx), (tid, sfx), process name, thread name, process start / end, thread start / end, main?, sample times (ns), all weights 1? *)
@@ -104,13 +104,14 @@ Definition verdict_c01_sw (x : N * list record * list oentry) : N :=
   (if negb prop then 2 else if conform entry_samples_eqb ms os then 0 else 1).
 
 (* the same decision for runs with --reuse-threads (reuse = true: a sample may be merged into the entry of an earlier, exited process or
-   thread, so only the multiset of times is compared) and / or --fold-recursive-prefix (entries and times as by default); these options are
-   not modelled, so there is no conformance part *)
+   thread, so only the multiset of times is compared for the property; the model of recycling, Model/ConverterReuse.v, says which entry) and / or
+   --fold-recursive-prefix (entries and times as by default) *)
 Definition verdict_c01_flags (x : bool * (N * list record * list oentry)) : N :=
   let '(reuse, (origin, rs, os)) := x in
   let strip (l : list triple) : list triple := if reuse then map (fun t => let '(_, _, tm) := t in (0, 0, tm)) l else l in
   let prop := tlist_eqb (tsort (strip (observed_triples os))) (tsort (strip (spec_accepted origin rs []))) && forallb oweights_ok os in
-  (if nontrivial rs then 10 else 0) + (if prop then 0 else 2).
+  let ms := if reuse then r_show (rrun origin rs) else show (run origin rs) in
+  (if nontrivial rs then 10 else 0) + (if negb prop then 2 else if conform entry_samples_eqb ms os then 0 else 1).
 
 (* ---- C17, decided on the observations (partial oracle: three clauses of the property that need no model) ---- *)
 Definition touches (pid tid : N) (r : record) : bool :=
